@@ -37,6 +37,9 @@ def judge_case(d, edits, r, c):
         if strip_markers(acc_prev) != strip_markers(r['final']):
             fail = 'preview read with all suggestions accepted differs from the accepted view of the committed document: ' + json.dumps(docrun.first_diff(strip_markers(r['final']), strip_markers(acc_prev)))
     f, kn = J.classify(c, fail, meta_region=True, block_region=True)
+    if f and not kn and J.in_virtual(c, c.get('raw_in') or docrun.extract(c['b'], False)): kn = ('D40', J.WHAT['D40'])
+    if f and not kn and 'differs' in f and J.emptied_story(c) and J.norm_sep(strip_markers(C14.read_view(r['preview'], 'accept')[0])) == J.norm_sep(strip_markers(r['final'])):
+        kn = ('D56', J.WHAT['D56'])
     if f and not kn and J.bold_led_para(d) and J.unhead(strip_markers(C14.read_view(r['preview'], 'accept')[0])) == J.unhead(strip_markers(r['final'])):
         kn = ('D42', 'the heuristic heading prefix of an all-caps bold paragraph changes with its text')
     return f, kn
